@@ -1,5 +1,5 @@
 (* Generic lemmas about traces of layouts. *)
-From V Require Import lib.Common lib.Layout.
+From V Require Import lib.Common lib.Layout model.PairTables.
 
 Lemma evs_app (a b : list item) : flat_map item_evs (a ++ b) = flat_map item_evs a ++ flat_map item_evs b.
 Proof. apply flat_map_app. Qed.
@@ -24,4 +24,19 @@ Proof.
   try (specialize (IH n); destruct (number items n); cbn in *; rewrite IH; reflexivity).
   - specialize (IH (n + length evs)%nat). destruct (number items (n + length evs)). cbn in *. rewrite IH. reflexivity.
   - specialize (IH (n + length evs)%nat). destruct (number items (n + length evs)). cbn in *. exact IH.
+Qed.
+
+Lemma indexed_length {A} (l : list A) : length (indexed l) = length l.
+Proof. unfold indexed. rewrite combine_length, seq_length. apply Nat.min_id. Qed.
+
+Lemma indexed_nth {A} (l : list A) k d : (k < length l)%nat -> nth k (indexed l) (O, d) = (k, nth k l d).
+Proof.
+  intro H. unfold indexed. rewrite combine_nth by (rewrite seq_length; reflexivity).
+  rewrite seq_nth by exact H. reflexivity.
+Qed.
+
+Lemma indexed_in {A} (l : list A) (e : A) : In e l -> exists i, In (i, e) (indexed l).
+Proof.
+  intro H. apply In_nth with (d := e) in H. destruct H as (n & Hn & He). exists n.
+  rewrite <- He. rewrite <- (indexed_nth l n e Hn). apply nth_In. rewrite indexed_length. exact Hn.
 Qed.
